@@ -1411,6 +1411,55 @@ fn main() {
             println!("installed={}", installed);
             println!("ops={}", ops.join(","));
         }
+        // reopen_modes : create_if_missing / error_if_exists against a missing and an existing database
+        "reopen_modes" => {
+            use raindb::{ReadOptions, WriteOptions};
+            let fs = rdbv::faultfs::FaultFs::new();
+            let mut o = raindb::DbOptions::with_memory_env();
+            o.filesystem_provider = std::sync::Arc::new(fs.clone());
+            o.db_path = "db".to_string();
+            o.create_if_missing = false;
+            println!("open_missing_without_create={}", if raindb::DB::open(o.clone()).is_ok() { "ok" } else { "err" });
+            let created = fs.take_log().iter().filter(|l| l.starts_with("create") || l.starts_with("rename")).count();
+            println!("files_after_refused_create={}", created);
+            o.create_if_missing = true;
+            {
+                let db = raindb::DB::open(o.clone()).expect("create");
+                db.put(WriteOptions::default(), b"k".to_vec(), b"v".to_vec()).unwrap();
+            }
+            o.error_if_exists = true;
+            println!("open_with_error_if_exists={}", if raindb::DB::open(o.clone()).is_ok() { "ok" } else { "err" });
+            o.error_if_exists = false;
+            o.create_if_missing = true;
+            match raindb::DB::open(o.clone()) {
+                Ok(db) => println!("reopen_get={}", db.get(ReadOptions::default(), b"k").map(|v| String::from_utf8_lossy(&v).to_string()).unwrap_or("missing".to_string())),
+                Err(_) => println!("reopen_get=open-failed"),
+            }
+        }
+        // unreadable_current : CURRENT of an existing database cannot be opened (permission error); open must fail and must
+        // not initialise the database again
+        "unreadable_current" => {
+            use raindb::{ReadOptions, WriteOptions};
+            let fs = rdbv::faultfs::FaultFs::new();
+            let mut o = raindb::DbOptions::with_memory_env();
+            o.filesystem_provider = std::sync::Arc::new(fs.clone());
+            o.db_path = "db".to_string();
+            o.create_if_missing = true;
+            {
+                let db = raindb::DB::open(o.clone()).expect("create");
+                db.put(WriteOptions::default(), b"k".to_vec(), b"v".to_vec()).unwrap();
+                let _ = db.flush_for_verif();
+            }
+            fs.fail_open("CURRENT");
+            let _ = fs.take_log();
+            println!("open_with_unreadable_current={}", if raindb::DB::open(o.clone()).is_ok() { "ok" } else { "err" });
+            println!("mutating_ops_during_refused_open={}", fs.take_log().iter().filter(|l| !l.starts_with("create db/LOCK") && !l.contains("LOCK")).count());
+            fs.fail_open("");
+            match raindb::DB::open(o.clone()) {
+                Ok(db) => println!("reopen_get={}", db.get(ReadOptions::default(), b"k").map(|v| String::from_utf8_lossy(&v).to_string()).unwrap_or("missing".to_string())),
+                Err(_) => println!("reopen_get=open-failed"),
+            }
+        }
         "vs_recover" => {
             // a database is created, written and closed; a fresh version set recovers from its files
             use raindb::WriteOptions;
